@@ -88,6 +88,13 @@ impl<'a> Visitor for Enumerate<'a> {
         // extreme real parts (zero, huge, tiny): the real part must still be the float result
         // (same NaN / infinity class, otherwise a few ulp)
         let extremes: Vec<f64> = if F::PREC == 53 { vec![0.0, -0.0, 1e-60, 1e60, -1e-60, -1e60, 1e-30, -1e30, 1e100, 1e-100] } else { vec![0.0, -0.0, 1e-12, -1e-12, 1e12, -1e12] };
+        // arguments of large and small magnitude well inside the range (premature overflow, amplified
+        // argument errors, cancellation next to zero)
+        let mut extremes = extremes;
+        extremes.extend([70.0, -70.0, 100.0, -100.0, 50.0, -50.0, 20.0, -1000.0, 1048576.0, -1048576.0, 1.2345678e-6, -3.3e-7]);
+        if F::PREC == 53 {
+            extremes.extend([690.0, -690.0, 1000.0, 400.0, -400.0]);
+        }
         for op in alphabet() {
             if op.arity() == 1 {
                 for &x in &extremes {
